@@ -18,6 +18,7 @@ Inductive binop := BUnion | BInter | BDiff | BSymDiff | BWith | BWithout | BConc
 Inductive cmpop := CMem | CNotMem | CEq | CNe | CLt | CGt | CLe | CGe
                  | CSub | CSup | CSubEq | CSupEq | CSubSup | CSubSupEq.
 Inductive unop := UNeg | UCount | UPow | UNot.
+Inductive joinop := JJoin | JCompose | JCommon | JExists | JRightMatch | JLeftMatch | JRightResidue | JLeftResidue.
 
 Inductive expr :=
 | ELit (v : val)
@@ -43,6 +44,10 @@ Inductive expr :=
 | EOr (a b : expr)
 | ECond (arms : list (expr * expr)) (dflt : option expr)
 | ECondPat (c : expr) (arms : list (pat * expr))
+| EJoin (op : joinop) (a b : expr)
+| ENest (inv : bool) (names : list name) (n : name) (a : expr)
+| ESingleNest (n : name) (a : expr)
+| ERank (a f : expr)
 with pat :=
 | PVar (x : name)
 | PWild
@@ -241,6 +246,116 @@ Definition un_data (op : unop) (a : val) : res val :=
   | UNot => Ok (vbool (negb (is_true a)))
   end.
 
+
+(* ---------- relations ---------- *)
+
+Fixpoint names_eq (a b : list name) : bool :=
+  match a, b with
+  | [], [] => true
+  | x :: a', y :: b' => name_eqb x y && names_eq a' b'
+  | _, _ => false
+  end.
+
+(* the heading of a set of tuples that all have the same attribute names *)
+Definition heading (l : list val) : option (list name) :=
+  match l with
+  | VTup t :: r =>
+      let h := map fst t in
+      if forallb (fun m => match m with VTup u => names_eq (map fst u) h | _ => false end) r then Some h else None
+  | _ => None
+  end.
+
+Definition name_in (n : name) (l : list name) : bool := existsb (name_eqb n) l.
+Definition tproject (keep : name -> bool) (t : list (name * val)) : list (name * val) :=
+  filter (fun p => keep (fst p)) t.
+
+(* t and u agree on every common attribute *)
+Definition agree (common : list name) (t u : list (name * val)) : bool :=
+  forallb (fun n => match tget n t, tget n u with
+                    | Some x, Some y => veqb x y
+                    | _, _ => false
+                    end) common.
+
+Definition jcombine (op : joinop) (common : list name) (t u : list (name * val)) : val :=
+  let notc := fun n => negb (name_in n common) in
+  match op with
+  | JJoin => build_tuple (t ++ u)
+  | JCompose => build_tuple (tproject notc t ++ tproject notc u)
+  | JCommon => VTup (tproject (fun n => name_in n common) t)
+  | JExists => VTup []
+  | JRightMatch => VTup u
+  | JLeftMatch => VTup t
+  | JRightResidue => VTup (tproject notc u)
+  | JLeftResidue => VTup (tproject notc t)
+  end.
+
+(* A op B: the combinations of every pair (t, u) of A x B that agree on the common attributes *)
+Definition join_data (op : joinop) (a b : list val) : res val :=
+  match a, b with
+  | [], _ | _, [] => Ok (VSet [])
+  | _, _ =>
+      match heading a, heading b with
+      | Some ha, Some hb =>
+          let common := filter (fun n => name_in n hb) ha in
+          Ok (mkset (flat_map (fun t => match t with
+                                        | VTup t1 => flat_map (fun u => match u with
+                                                                        | VTup u1 => if agree common t1 u1 then [jcombine op common t1 u1] else []
+                                                                        | _ => []
+                                                                        end) b
+                                        | _ => []
+                                        end) a))
+      | _, _ => Err
+      end
+  end.
+
+(* A nest |names| n : one row per distinct rest-of-tuple, with the set of the projections on names *)
+Definition nest_data (names : list name) (n : name) (a : list val) : res val :=
+  match a with
+  | [] => Ok (VSet [])
+  | _ =>
+      match heading a with
+      | Some h =>
+          if negb (forallb (fun x => name_in x h) names) then Unspec       (* the implementation panics; C10 *)
+          else if name_in n (filter (fun x => negb (name_in x names)) h) then Unspec
+          else
+          let key := fun t => tproject (fun x => negb (name_in x names)) t in
+          let grp := fun t => tproject (fun x => name_in x names) t in
+          Ok (mkset (map (fun m => match m with
+                                   | VTup t =>
+                                       build_tuple (key t ++
+                                         [(n, mkset (flat_map (fun m' => match m' with
+                                                                         | VTup t' => if veqb (VTup (key t')) (VTup (key t)) then [VTup (grp t')] else []
+                                                                         | _ => []
+                                                                         end) a))])
+                                   | x => x
+                                   end) a))
+      | None => Err
+      end
+  end.
+
+(* A nest n : group by every other attribute and collect the values of n *)
+Definition single_nest_data (n : name) (a : list val) : res val :=
+  match a with
+  | [] => Ok (VSet [])
+  | _ =>
+      match heading a with
+      | Some h =>
+          if negb (name_in n h) then Unspec else
+          let key := fun t => tproject (fun x => negb (name_eqb x n)) t in
+          Ok (mkset (map (fun m => match m with
+                                   | VTup t =>
+                                       build_tuple (key t ++
+                                         [(n, mkset (flat_map (fun m' => match m' with
+                                                                         | VTup t' => if veqb (VTup (key t')) (VTup (key t))
+                                                                                      then match tget n t' with Some x => [x] | None => [] end else []
+                                                                         | _ => []
+                                                                         end) a))])
+                                   | x => x
+                                   end) a))
+      | None => Err
+      end
+  end.
+
 (* c(k): the values paired with k *)
 Inductive callres := CROne (v : val) | CRNone | CRMany | CRNotKeyed.
 Definition call_data (c : list val) (k : val) : callres :=
@@ -420,6 +535,56 @@ Fixpoint eval (fuel : nat) (rho : env) (e : expr) {struct fuel} : res value :=
                | OutOfFuel => OutOfFuel
                end
            end) arms
+    | EJoin op a b =>
+        do x <- evd rho a; do y <- evd rho b;
+        match x, y with
+        | VSet la, VSet lb => do r <- join_data op la lb; Ok (D r)
+        | _, _ => Err
+        end
+    | ENest inv names n a =>
+        do x <- evd rho a;
+        match x with
+        | VSet l =>
+            let names' := if inv then match heading l with
+                                      | Some h => filter (fun y => negb (name_in y names)) h
+                                      | None => names
+                                      end else names in
+            do r <- nest_data names' n l; Ok (D r)
+        | _ => Err
+        end
+    | ESingleNest n a =>
+        do x <- evd rho a;
+        match x with
+        | VSet l => do r <- single_nest_data n l; Ok (D r)
+        | _ => Err
+        end
+    | ERank a f =>
+        do x <- evd rho a; do fv <- ev rho f;
+        match x, fv with
+        | VSet [], _ => Ok (D (VSet []))
+        | VSet l, Clos _ _ _ =>
+            (* every row gets, for each key attribute, the number of rows with a strictly smaller key *)
+            do keyed <- mapM (fun m => do k <- apply fv (D m); do kd <- as_data k;
+                                       match m, kd with
+                                       | VTup t, VTup ks => Ok (t, ks)
+                                       | _, _ => Unspec
+                                       end) l;
+            do rows <- mapM (fun tk =>
+                     do ranks <- mapM (fun kv =>
+                         match snd kv with
+                         | VNum x =>
+                             do smaller <- mapM (fun tk' => match tget (fst kv) (snd tk') with
+                                                            | Some (VNum y) => Ok (num2 y <? num2 x)
+                                                            | _ => Unspec
+                                                            end) keyed;
+                             Ok (fst kv, vint (Z.of_nat (length (filter (fun b => b) smaller))))
+                         | _ => Unspec
+                         end) (snd tk);
+                     Ok (build_tuple (fst tk ++ ranks))) keyed;
+            Ok (D (mkset rows))
+        | VSet _, _ => Unspec
+        | _, _ => Err
+        end
     end
   end
 
